@@ -18,6 +18,7 @@ CLAIMS = {
  "C07": ("design model check of status legality on every exit path + trace validation of code/message/success against what the trace shows", "5/C07"),
  "C08": ("design liveness/exception mapping + trace validation over enumerated fault plans (NaN/inf/huge at index k or region, degenerate data, all-fixed/inconsistent bounds, callbacks): returns, barrier, success=>finite", "5/C08"),
  "C09": ("design model check of stop immediacy + trace validation with triggers placed at every site", "5/C09"),
+ "C19": ("the documented domains / coupling relations / defaults transcribed into Options.tla; TLC enumerates the universe of supplied-subset x boundary-lattice cells (singles, coupled pairs, all ordered pairs), minimize is called for each cell and TLC decides from order keys whether the call had to raise and whether the completed settings satisfy relations and defaults", "5/C19"),
  "C20": ("design model check + trace validation: one callback per evaluation, convention by signature, argument Acceptable among evaluations so far and equal to what would be returned, stop semantics", "5/C20"),
 }
 
